@@ -429,6 +429,9 @@ func (m *Module) Binary() []byte {
 
 // ---- generator -------------------------------------------------------------------------------
 
+// Stats counts what the special statement forms emitted (read by the harness into its evidence).
+var Stats = map[string]int{}
+
 type Config struct {
 	MaxFuncs, MaxDepth, MaxStmts int
 	Floats                       bool
@@ -965,7 +968,9 @@ func (g *fgen) stmt(depth int) {
 			}
 		}
 	case 19, 20:
-		if g.cfg.BlockParams && (r.Intn(2) == 0 || !(g.cfg.Atomics || g.cfg.SIMD)) {
+		if g.m.HasMem && r.Intn(3) == 0 {
+			g.stackedLoadStore(depth)
+		} else if g.cfg.BlockParams && (r.Intn(2) == 0 || !(g.cfg.Atomics || g.cfg.SIMD)) {
 			g.paramBlock(depth)
 		} else if g.m.HasMem && (g.cfg.Atomics || g.cfg.SIMD) {
 			g.catalogueAccess(depth)
@@ -1077,6 +1082,7 @@ func (g *fgen) catalogueAccess(depth int) {
 	}
 	g.a.B = append(g.a.B, o.Instr(uint32(r.Intn(3))*uint32(o.W))...)
 	g.a.T = append(g.a.T, "memcat:"+o.Name)
+	Stats["memcat:"+o.Kind]++
 	if res := o.Result(); res != 0 {
 		t := vt(res)
 		if !g.ok(t) {
@@ -1086,6 +1092,97 @@ func (g *fgen) catalogueAccess(depth int) {
 		} else {
 			g.a.Drop()
 		}
+	}
+}
+
+// stackedLoadStore: a loaded value WAITS ON THE OPERAND STACK while a store through the SAME address value
+// overwrites (part of) the bytes it read; only then it is consumed, once, by a binary operator:
+//
+//	a := expr & 0xff8 ; [other] ; load(a+x) ; store_w(a+y, v) ; [other] ; op
+//
+// The store needs no bounds check of its own (same base value, smaller ceiling), so nothing but the store itself
+// stands between the load and its consumer: instruction selection that folds the load into the consumer as a
+// memory operand must not move it past the store - whatever the store's width (8, 16, 32, 64 bits, float).
+func (g *fgen) stackedLoadStore(depth int) {
+	r := g.r
+	var ts []VT
+	for _, t := range g.types() {
+		if len(binops[t]) > 0 {
+			ts = append(ts, t)
+		}
+	}
+	t := ts[r.Intn(len(ts))]
+	var ld memOp
+	for _, l := range loads {
+		if l.t == t && (l.name == TName(t)+".load" || r.Intn(4) == 0) {
+			ld = l
+			if l.name == TName(t)+".load" {
+				break
+			}
+		}
+	}
+	size := uint32(4)
+	if t == I64 || t == F64 {
+		size = 8
+	}
+	sa := g.scratch(I32)
+	g.expr(I32, depth+1)
+	g.a.I32Const(0xff8)
+	g.a.Num(wasm.OpcodeI32And)
+	g.a.LocalSet(sa)
+	loadFirst := r.Intn(2) == 0
+	if !loadFirst {
+		g.expr(t, g.cfg.MaxDepth)
+	}
+	x := uint32(r.Intn(3)) * 8
+	g.a.LocalGet(sa)
+	g.a.Mem(ld.name, ld.opc, ld.al, x)
+	// the store: any width, inside the bytes the load read (y + w <= x + size)
+	var cands []memOp
+	for _, st := range stores {
+		if g.ok(st.t) {
+			cands = append(cands, st)
+		}
+	}
+	st := cands[r.Intn(len(cands))]
+	w := uint32(1) << st.al
+	y := x
+	if w < size {
+		y = x + uint32(r.Intn(int(size-w)+1))
+	} else if w > size {
+		w, y = size, x
+		for _, c := range cands { // a store of the load's own width instead
+			if uint32(1)<<c.al == size && c.t == t {
+				st = c
+			}
+		}
+	}
+	g.a.LocalGet(sa)
+	g.expr(st.t, g.cfg.MaxDepth)
+	g.a.Mem(st.name, st.opc, st.al, y)
+	Stats["stacked:"+ld.name+"/"+st.name]++
+	if loadFirst {
+		g.expr(t, g.cfg.MaxDepth)
+	}
+	var ops2 []numOp
+	for _, o := range binops[t] {
+		if o.params[0] == t && o.params[1] == t {
+			ops2 = append(ops2, o)
+		}
+	}
+	op := ops2[r.Intn(len(ops2))]
+	g.a.Num(op.opc)
+	if op.float {
+		g.canon(t)
+	}
+	t = op.result
+	// mostly straight into a global: what the consumer computed must be observable
+	if gs := g.globalsOf(t); len(gs) > 0 && r.Intn(4) > 0 {
+		g.a.GlobalSet(gs[r.Intn(len(gs))])
+	} else if ls := g.localsOf(t); len(ls) > 0 {
+		g.a.LocalSet(ls[r.Intn(len(ls))])
+	} else {
+		g.a.Drop()
 	}
 }
 
@@ -1129,6 +1226,7 @@ func (g *fgen) paramBlock(depth int) {
 	}
 	P, R := pick(1+r.Intn(3)), pick(r.Intn(3))
 	kind := r.Intn(3) // 0 block, 1 loop, 2 if
+	Stats[fmt.Sprintf("paramblock:kind%d", kind)]++
 	if kind == 1 && g.nLoops >= 2 {
 		kind = 0
 	}
